@@ -18,6 +18,32 @@ META = {
             'property-based testing (rapidcheck) with a finite-difference derivative oracle on an independent model'),
     'C06': ('rjac/ljac against the series sum ad^k/(k+1)! of the reference model, inverses, Adj by conjugation, exp(ad), homomorphism, smallAdj = commutator',
             'property-based testing (rapidcheck), algebraic identities against an independent model'),
+    'C07': ('generator tables, hat/vee, bracket identities (antisymmetry, bilinearity, Jacobi), inner product as Frobenius product, InnerWeights SPD: exact equality over an exact rational scalar, 2^12 u over floats; generator index over the whole int range',
+            'property-based testing (rapidcheck) over floating and exact-rational scalars; algebraic identities against an independent generator table'),
+    'C08': ('generated operation histories (up to 2000 steps, replayed cyclically up to 1e5/1e6 steps) from starting elements at the acceptance threshold; invariant after every step: finite, unit within the library threshold, no drift; no exception in the assertion-enabled build',
+            'stateful property-based testing (rapidcheck op sequences, shrinkable) with a per-step invariant; assertion-enabled and NDEBUG builds'),
+    'C09': ('every operation under all subsets of its optional outputs, outputs bound to blocks of pre-filled larger matrices, re-evaluation after unrelated activity, aliased assignments, first use of the statics in generated orders across processes; all compared bit for bit',
+            'property-based testing (rapidcheck), metamorphic: output-subset / history / aliasing invariance, bitwise'),
+    'C10': ('owning vs Map vs Map<const> operands for every operation over exact-size heap blocks at aligned and mis-aligned offsets under AddressSanitizer; writes through views checked against guard words',
+            'property-based testing (rapidcheck) + AddressSanitizer/UBSan, differential across storage kinds, guard zones'),
+    'C11': ('every Bundle operation compared with the same operation on stand-alone elements at offsets recomputed by the harness; off-diagonal entries exact zeros with NaN-prefilled outputs; element<i>() aliasing',
+            'property-based testing (rapidcheck), differential bundle vs per-element'),
+    'C12': ('derivatives through an independent dual-number scalar compared with the analytic Jacobians for 26 operation/functor-argument pairs incl. the ceres-style functors over raw pointers; float vs double on identical inputs',
+            'property-based testing (rapidcheck), differential AD vs analytic, float vs double'),
+    'C13': ('every constructor / setter / accessor with generated arguments against reference rotations; validation on both sides of the acceptance threshold in assertion-enabled and NDEBUG builds; cast<>() validity',
+            'property-based testing (rapidcheck), round-trips and reference rotations, two build configurations'),
+    'C14': ('generated thread programs over shared const objects and first use of every lazily initialised static, many fresh processes, ThreadSanitizer + comparison with a single-threaded evaluation',
+            'generated thread programs (schedule exploration) with ThreadSanitizer as oracle and single-thread differential'),
+    'C15': ('end points for all methods and velocities, rejection of t outside [0,1] and of unsupported degrees, SLERP against A*exp(t*log(A^-1 B)) on the reference model, left equivariance, exact-rational evaluation of the smoothing polynomial',
+            'property-based testing (rapidcheck), reference model + metamorphic (equivariance) + exact arithmetic'),
+    'C16': ('validity, identical points, empty set, stationarity of the residual on the reference model, order independence, left/right equivariance for the four routines on generated point clouds',
+            'property-based testing (rapidcheck), fixed-point residual oracle + metamorphic relations (permutation, translation)'),
+    'C17': ('single generated cells and exhaustive sweeps of the box (N<=16, d<=N, k<=4, open/closed) under AddressSanitizer with memory/time guards: size, window end points, geodesic for degree 2, exceptions for invalid arguments',
+            'property-based testing (rapidcheck) + exhaustive enumeration of the parameter box under AddressSanitizer'),
+    'C18': ('reflexivity for every generated element and eps (large coordinates, q/-q), symmetry, near/far decisions one to four decades from eps where the noise floor permits, tangent absolute/relative tests',
+            'property-based testing (rapidcheck), relational properties of the tolerance relation'),
+    'C19': ('exhaustive enumeration of 16120 one-entry client programs (entry x group x scalar x storage), compiled, linked and run against the canonical member',
+            'exhaustive generation of client programs, compiler + bit-for-bit forwarding check as oracle'),
 }
 
 DEFAULT_NOTE = ('held on the generated cases only; trusts the reference model in engine/vf_ref.cpp (documented matrix layouts, Taylor expm), '
@@ -58,7 +84,11 @@ def main():
         'engines': [
             {'name': 'rapidcheck + reference model', 'path': 'engine/', 'serves_properties': [c['property_id'] for c in checks if c['engine'].startswith('rapidcheck')],
              'kind_free_text': 'property-based testing (rapidcheck) over stratified generators against an independent extended-precision matrix model of the groups; shrinking; replay files'},
-        ] + getattr(props, 'EXTRA_ENGINES', []),
+            {'name': 'generated thread programs + ThreadSanitizer', 'path': 'lib/c14.py', 'serves_properties': ['C14'],
+             'kind_free_text': 'generated multi-threaded programs (props/C14_prog.cpp), one process per program, TSan as race oracle'},
+            {'name': 'exhaustive program generation + compiler as oracle', 'path': 'lib/c19.py', 'serves_properties': ['C19'],
+             'kind_free_text': 'enumerates the entry x group x scalar x storage matrix of one-entry client programs (props/C19_entries.py), delta-debugs failing translation units'},
+        ],
         'checks': checks,
         'notes': 'All checks: ./check <id> --tier quick|thorough; VERIF_SEED selects the seed; VERIF_REPO overrides /repo (used for mutant self-tests). See DESIGN.md.',
         'not_applicable': na,
